@@ -24,6 +24,43 @@ class HarnessError(Exception):
     """something the harness needs is missing - never a property violation"""
 
 
+class VirtualClock:
+    """the clock seam: time.time / monotonic / perf_counter (and the _ns variants) are replaced, before the library is imported,
+    by functions that add an offset the harness controls.  Offset 0 = real time.  Harnesses call advance() between API calls so
+    that 'an hour passes' between start() and finish() - anything that expires by wall-clock time becomes visible."""
+
+    def __init__(self):
+        self.offset = 0.0
+        self.installed = False
+
+    def install(self):
+        if self.installed:
+            return
+        import time as _t
+        self._orig = {n: getattr(_t, n) for n in ("time", "monotonic", "perf_counter", "time_ns", "monotonic_ns", "perf_counter_ns") if hasattr(_t, n)}
+        clock = self
+
+        def mk(name):
+            f = clock._orig[name]
+            if name.endswith("_ns"):
+                return lambda: f() + int(clock.offset * 1e9)
+            return lambda: f() + clock.offset
+        for n in self._orig:
+            setattr(_t, n, mk(n))
+        self.installed = True
+
+    def advance(self, seconds=3600.0):
+        self.offset += seconds
+
+    def real(self):
+        """the real wall clock (for the harness's own timing)"""
+        import time as _t
+        return self._orig["time"]() if self.installed else _t.time()
+
+
+clock = VirtualClock()
+
+
 class _Lib:
     pass
 
@@ -36,6 +73,7 @@ def lib():
     global _LIB
     if _LIB is not None:
         return _LIB
+    clock.install()
     for k in [k for k in sys.modules if k == "spake2" or k.startswith("spake2.")]:
         del sys.modules[k]
     if SRC in sys.path:
@@ -198,8 +236,17 @@ def canon_value(v, depth=0):
     """hashable canonical form of an attribute value of a session instance"""
     if isinstance(v, (bytes, int, bool, str, float)) or v is None:
         return v
+    if isinstance(v, bytearray):
+        return ("bytearray", bytes(v))
     if isinstance(v, (list, tuple)):
-        return tuple(canon_value(i, depth + 1) for i in v)
+        return (type(v).__name__,) + tuple(canon_value(i, depth + 1) for i in v)
+    if isinstance(v, dict) and depth < 6:
+        return ("dict",) + tuple(sorted(((repr(k), canon_value(x, depth + 1)) for k, x in v.items())))
+    if isinstance(v, (set, frozenset)) and depth < 6:
+        return ("set",) + tuple(sorted(repr(canon_value(x, depth + 1)) for x in v))
+    import collections as _c
+    if isinstance(v, _c.deque):
+        return ("deque", v.maxlen) + tuple(canon_value(i, depth + 1) for i in v)
     tb = getattr(v, "to_bytes", None)
     if callable(tb) and not isinstance(v, int):
         try:
@@ -211,6 +258,23 @@ def canon_value(v, depth=0):
     if callable(v):
         return ("callable", getattr(v, "__name__", type(v).__name__))
     return ("obj", type(v).__name__)
+
+
+def snapshot(obj):
+    """copy of a session instance for exploration: shallow copy of the object, plus a deep copy of every mutable container it
+    owns (a list/dict/set/deque/bytearray attribute must not be aliased between explored branches); elements, groups and
+    parameter sets stay shared, exactly as between real sessions"""
+    import copy as _copy, collections as _c
+    new = _copy.copy(obj)
+    d = getattr(new, "__dict__", None)
+    if d:
+        for k, v in list(d.items()):
+            if isinstance(v, (list, dict, set, bytearray, _c.deque)):
+                try:
+                    d[k] = _copy.deepcopy(v)
+                except Exception:
+                    d[k] = _copy.copy(v)
+    return new
 
 
 def canon_instance(obj):
